@@ -669,9 +669,14 @@ class Engine(MatrixTheory, NumpyTheory, Evaluator):
             return st.heap.alloc_list(et_, z3.IntVal(0), [z3.K(z3.IntSort(), self.default_of(s_)) for s_ in leaf_sorts(et_)])
         if name == 'origin':
             # origin(L, p): index, in the list L was selected from, of the element at position p (L built by filter comprehensions / their concatenation)
+            # origin(L, p, S): the same, checked to be relative to the list S (L may also be S itself: the position)
+            if len(args) > 2 and isinstance(args[2], VList) and args[2].ref == args[0].ref:
+                return VInt(as_int(args[1]))
             O = st.heap.origins.get(args[0].ref)
             if O is None:
                 raise Unsupported('origin() of a list that is not a selection')
+            if len(args) > 2 and getattr(st.heap, 'origin_src', {}).get(args[0].ref) != getattr(args[2], 'ref', None):
+                raise Unsupported('origin() relative to a list the value was not selected from')
             return VInt(O[as_int(args[1])])
         if name == 'depth':
             return VInt(args[0].depth)
